@@ -211,7 +211,7 @@ func runSched(c jobCase) {
 		select {
 		case x := <-g.arrived:
 			return x, true
-		case <-time.After(20 * time.Second):
+		case <-time.After(180 * time.Second):
 			deadlock = true
 			return 0, false
 		}
